@@ -4,6 +4,7 @@ Case = {"config": S|E|U, "max": 0|1|2|inf, "ns": 1..3, "nr": 1..3, "keep_r": boo
 step = ["send", d, h] | ["send_nw", d, h] | ["recv", d, h] | ["recv_nw", d, h]
      | ["cancel", d, target, native] | ["sendc"|"recvc", d, h, off, native]   op with a cancel of a blocked peer around it
      | ["close_s"|"close_r"|"clone_s"|"clone_r", d, h]                        (C13 only)
+     | ["closec", d, h, off, which, native, cancel_first]    close send handle h with a cancel of a parked receiver around it
 Handles are indexes into the lists of send / receive clones (modulo their current length).
 Violation rules are prefixed with the property that owns them ("c12:" / "c13:").
 """
@@ -40,12 +41,16 @@ def gen_case(g, closing):
                  "r": [(4, "send"), (2, "send_nw"), (40, "recv"), (10, "recv_nw"), (12, "cancel"), (4, "sendc"), (16, "recvc")],
                  "m": [(20, "send"), (8, "send_nw"), (20, "recv"), (8, "recv_nw"), (14, "cancel"), (10, "sendc"), (10, "recvc")]}[role]
             if closing:
-                w = w + [(9, "close_s"), (9, "close_r"), (5, "clone_s"), (5, "clone_r")]
+                w = w + [(9, "close_s"), (9, "close_r"), (5, "clone_s"), (5, "clone_r"), (6, "closec")]
             k = g.weighted(w)
             if k == "cancel":
                 script.append([k, d, g.int(0, n - 1), g.chance(15)])
             elif k in ("sendc", "recvc"):
                 script.append([k, d, g.int(0, 2), g.choice([-1, 0, 0, 1]), g.chance(15)])
+            elif k == "closec":
+                # close a send handle with a cancel of a parked receiver one cycle before / in the same cycle (before
+                # or after the close) / one cycle after
+                script.append([k, d, g.int(0, 3), g.choice([-1, 0, 0, 1]), g.int(0, 2), g.chance(35), g.bool()])
             else:
                 script.append([k, d, g.int(0, 3)])
         actors.append(script)
@@ -58,7 +63,8 @@ def run_stream_case(case):
     out = Outcome()
     stats = {"two_blocked": 0, "cancel_near_handover": 0, "last_close_with_blocked": 0, "double_close": 0,
              "clone_after_close": 0, "interrupted_send": 0, "cancelled_recv": 0, "native": 0,
-             "native_cancel_after_handover": 0, "excluded_f8_window": 0, "closed_with_own_op_in_flight": 0}
+             "native_cancel_after_handover": 0, "excluded_f8_window": 0, "closed_with_own_op_in_flight": 0,
+             "close_with_cancel_of_parked_receiver": 0}
     maxbuf = case["max"]
 
     async def body(sim):
@@ -72,6 +78,7 @@ def run_stream_case(case):
         r_open = [True] * len(recvs)
         busy_s, busy_r = {}, {}       # handle index -> number of operations in flight
         dirty_s, dirty_r = set(), set()   # handles closed while one of their own operations was in flight
+        dirty_at = {}                     # (side, handle) -> cycle of that close
         seq = [0]
         itemseq = {}
         accepted, interrupted = [], []
@@ -270,8 +277,13 @@ def run_stream_case(case):
                 eos_check("receive", open_at_call or hidx in dirty_r)
                 return
             except ClosedResourceError:
-                if open_at_call and hidx not in dirty_r:
-                    out.bad("c13:closed-error-on-open-handle", "receive", "")
+                # the handle was open when receive() was invoked: ClosedResourceError is only understandable if the
+                # handle was closed during the call's initial checkpoint (within one cycle of the call); a receiver
+                # that had already parked keeps waiting and ends with an item or EndOfStream
+                if open_at_call and not (hidx in dirty_r and dirty_at.get(("r", hidx), 10 ** 9) <= me[1] + 1):
+                    out.bad("c13:closed-error-on-open-handle", "receive",
+                            f"receive() invoked at cycle {me[1]} on an open handle (closed by another task at cycle "
+                            f"{dirty_at.get(('r', hidx))}) raised ClosedResourceError at cycle {sim.now()}")
                 return
             if got is None:
                 return
@@ -300,6 +312,7 @@ def run_stream_case(case):
                 # closing a handle while one of its own operations is in flight: that operation's own outcome is
                 # not judged (ok / ClosedResourceError both accepted), everything else still is
                 (dirty_s if side == "s" else dirty_r).add(idx)
+                dirty_at.setdefault((side, idx), sim.now())
                 stats["closed_with_own_op_in_flight"] += 1
             was_open = flags[idx]
             if not was_open:
@@ -379,6 +392,30 @@ def run_stream_case(case):
                     await asyncio.sleep(0)
                     if target is not None:
                         do_cancel(target, native)
+            elif k == "closec":
+                pool = live(blocked_recv)
+                target = pool[min(step[4], len(pool) - 1)] if pool else None
+                off, native = step[3], step[5]
+                if off == -1:
+                    if target is not None:
+                        do_cancel(target, native)
+                    await asyncio.sleep(0)
+                    do_close("s", step[2])
+                elif off == 0:
+                    if step[6] and target is not None:
+                        do_cancel(target, native)
+                    do_close("s", step[2])
+                    if not step[6] and target is not None:
+                        do_cancel(target, native)
+                else:
+                    do_close("s", step[2])
+                    await asyncio.sleep(0)
+                    pool = live(blocked_recv)
+                    target = pool[min(step[4], len(pool) - 1)] if pool else None
+                    if target is not None:
+                        do_cancel(target, native)
+                if target is not None:
+                    stats["close_with_cancel_of_parked_receiver"] += 1
             elif k in ("close_s", "close_r"):
                 do_close(k[-1], step[2])
             elif k in ("clone_s", "clone_r"):
